@@ -67,6 +67,15 @@ class State:
         return State(dict(self.env), {k: dict(v) for k, v in self.heap.items()}, self.guard, dict(self.imports))
 
 
+def flat_env(env: dict, heap: dict) -> dict:
+    """the environment with every object field as a pseudo-name `@<oid>.<field>`: loop state kept in object fields is read like loop state kept in names"""
+    out = dict(env)
+    for oid, fields in heap.items():
+        for f, v in fields.items():
+            out[f"@{oid}.{f}"] = v
+    return out
+
+
 class Frame:
     def __init__(self, func: Optional[FuncInfo], module: ModuleInfo, self_cls: Optional[ClassInfo] = None):
         self.func = func
@@ -291,6 +300,7 @@ class Evaluator:
         bound0 = dict(env)
         sub = State(env, st.heap, st.guard, {})
         fr = Frame(fi, fi.module, fi.cls)
+        fr.caller_env = st.env
         self.frames.append(fr)
         self.depth += 1
         try:
@@ -897,6 +907,12 @@ class Evaluator:
                                 names.add(x.id)
                         if isinstance(t, ast.Subscript) and ast.unparse(t.value) not in {ast.unparse(x_) for x_ in stores if not isinstance(x_, tuple)}:
                             stores.append(t.value)
+                        for x in ([t] if isinstance(t, ast.Attribute) else (t.elts if isinstance(t, (ast.Tuple, ast.List)) else [])):
+                            # `obj.field = ...`: the field of that object is loop state
+                            if isinstance(x, ast.Attribute) and isinstance(x.value, (ast.Name, ast.Attribute)):
+                                key_ = ('attr', ast.unparse(x.value), x.attr)
+                                if key_ not in {x_[:3] for x_ in stores if isinstance(x_, tuple)}:
+                                    stores.append(('attr', ast.unparse(x.value), x.attr, x.value))
                         if isinstance(n, ast.AugAssign) and isinstance(t, ast.Name):
                             names.add(t.id)
                 elif isinstance(n, ast.withitem) and n.optional_vars is not None:
@@ -910,7 +926,9 @@ class Evaluator:
                         names.add(n.func.value.id)
         return names, stores
 
-    def havoc(self, st: State, names, stores, lid: int, phase: str, targets=()):
+    def havoc(self, st: State, names, stores, lid: int, phase: str, targets=()) -> set:
+        """returns the pseudo-names (`@<oid>.<field>`) of the object fields made loop state"""
+        field_names: set = set()
         for nm in names:
             if nm in targets:
                 continue
@@ -922,17 +940,21 @@ class Evaluator:
                 else:
                     st.env[nm] = t
         for expr in stores:
-            if isinstance(expr, tuple) and expr[0] == 'fields':
+            if isinstance(expr, tuple) and expr[0] in ('fields', 'attr'):
                 try:
                     recv = self.eval(expr[3], st, quiet=True)
                 except Exception:
                     continue
                 if isinstance(recv, Obj):
-                    for fname in sorted(self.mutated_fields(recv.cls, expr[2])):
+                    for fname in (sorted(self.mutated_fields(recv.cls, expr[2])) if expr[0] == 'fields' else [expr[2]]):
                         fv = st.heap.get(recv.oid, {}).get(fname)
                         if fv is None:
                             continue
-                        t = Term('loopstate', (fv, Const(phase)), uid=lid, kind=getattr(fv, 'kind', 'unknown'))
+                        pseudo = f"@{recv.oid}.{fname}"
+                        if pseudo in field_names:
+                            continue
+                        field_names.add(pseudo)
+                        t = Term('loopvar', (Const(pseudo), Const(phase)), uid=lid, kind=getattr(fv, 'kind', 'unknown'))
                         st.heap[recv.oid][fname] = term_as_num(t, fv.length is not None, fv.kind) if isinstance(fv, Num) else t
                 continue
             try:
@@ -949,6 +971,7 @@ class Evaluator:
             t = Term('loopstate', (old, Const(phase)), uid=lid, kind=getattr(old, 'kind', 'unknown'))
             nv = term_as_num(t, True, getattr(old, 'kind', None)) if isinstance(old, Num) else t
             self.rebind(expr, nv, st)
+        return field_names
 
     def exec_For(self, s, st):
         it = self.eval(s.iter, st)
@@ -1043,19 +1066,19 @@ class Evaluator:
         carried: Dict[str, Val] = {}
         for attempt in (0, 1):
             body = st.clone()
-            self.havoc(body, names, stores, lid, 'in', targets=tnames)
+            fnames = self.havoc(body, names, stores, lid, 'in', targets=tnames)
             body.env.update(carried)
             self.loops.append(ctx)
             try:
                 self.assign(s.target, elem, body, s)
-                entry_env = dict(body.env)
+                entry_env = flat_env(body.env, body.heap)
                 self.exec_block(s.body, body)
             finally:
                 self.loops.pop()
             if attempt == 1 or True:
                 self.loop_log = [e_ for e_ in self.loop_log if e_['lid'] != lid]
                 self.loop_log.append({'node': s, 'lid': lid, 'pre': st.clone(), 'entry': dict(entry_env), 'end': body, 'cond': Const(True), 'depth': len(self.loops),
-                                      'names': set(names), 'orelse': bool(s.orelse), 'for': True, 'var': var, 'sym': lsym, 'kind': ctx.kind, 'lo': ctx.lo, 'hi': ctx.hi})
+                                      'names': set(names) | fnames, 'orelse': bool(s.orelse), 'outer': self._outer_envs(), 'for': True, 'var': var, 'sym': lsym, 'kind': ctx.kind, 'lo': ctx.lo, 'hi': ctx.hi})
             if attempt == 1:
                 break
             carried = self._carried_values(ctx, names - tnames, st, body)
@@ -1068,11 +1091,11 @@ class Evaluator:
             self.exec_block(s.orelse, body)
         summary = self._summarise_loop(s, ctx, st, body, mark_events)
         # after the loop: everything the body assigns is unknown
-        st.heap = body.heap
-        self.havoc(st, names | tnames, [], lid, 'out')
+        st.heap = {k_: dict(v_) for k_, v_ in body.heap.items()}     # (a copy: the state at the end of the body is kept in the loop log)
+        self.havoc(st, names | tnames, [x_ for x_ in stores if isinstance(x_, tuple)], lid, 'out')
         for expr in stores:
             if isinstance(expr, tuple):
-                continue                # object fields: the heap of the body is the heap after the loop
+                continue                # object fields: unknown after the loop (above)
             v = self.eval(expr, body, quiet=True)
             if not isinstance(v, Obj):
                 self.rebind(expr, v, st)
@@ -1258,16 +1281,21 @@ class Evaluator:
             return term_as_num(a, True, getattr(a, 'kind', None)).at(idx)
         return Term('item', (a, Num(idx)))
 
+    def _outer_envs(self) -> list:
+        """per active frame, a snapshot of the names of the frame that called it (None for the entry frame): a loop inside a helper cannot re-bind them"""
+        return [dict(f.caller_env) if getattr(f, 'caller_env', None) is not None else None for f in self.frames]
+
     def exec_While(self, s, st):
         lid = fresh_serial()
         names, stores = self.assigned_in(s.body)
         body = st.clone()
         pre = st.clone()
-        self.havoc(body, names, stores, lid, 'in')
+        fnames = self.havoc(body, names, stores, lid, 'in')
+        entry_env = flat_env(body.env, body.heap)
         cond = self.truth(self.eval(s.test, body), body, s.test)
         ctx = LoopCtx(lid, 'while', None, None, node=s, cond=cond)
-        self.loop_log.append({'node': s, 'lid': lid, 'pre': pre, 'entry': dict(body.env), 'end': body, 'cond': cond, 'depth': len(self.loops), 'names': set(names),
-                              'orelse': bool(s.orelse)})
+        self.loop_log.append({'node': s, 'lid': lid, 'pre': pre, 'entry': entry_env, 'end': body, 'cond': cond, 'depth': len(self.loops), 'names': set(names) | fnames,
+                              'orelse': bool(s.orelse), 'outer': self._outer_envs()})
         if not isinstance(cond, Const):
             body.guard = body.guard + (cond,)
         elif not cond.v:
@@ -1277,11 +1305,11 @@ class Evaluator:
             self.exec_block(s.body, body)
         finally:
             self.loops.pop()
-        st.heap = body.heap
-        self.havoc(st, names, [], lid, 'out')
+        st.heap = {k_: dict(v_) for k_, v_ in body.heap.items()}     # (a copy: the state at the end of the body is kept in the loop log)
+        self.havoc(st, names, [x_ for x_ in stores if isinstance(x_, tuple)], lid, 'out')
         for expr in stores:
             if isinstance(expr, tuple):
-                continue                # object fields: the heap of the body is the heap after the loop
+                continue                # object fields: unknown after the loop (above)
             v = self.eval(expr, body, quiet=True)
             if not isinstance(v, Obj):
                 self.rebind(expr, v, st)
@@ -1303,7 +1331,7 @@ class Evaluator:
         if rec is not None and rec['depth'] == len(self.loops) and rec['frames'] == len(self.frames):
             rec['breaks'].append(st.clone())        # leaves an unrolled loop over a literal table: execution goes on after the loop
             return False
-        self.emit('break', st, s, env=dict(st.env))
+        self.emit('break', st, s, env=flat_env(st.env, st.heap))
         return False
 
     def exec_Continue(self, s, st):
